@@ -60,6 +60,18 @@ Theorem C18_perm_qualifies : forall (F : list N -> list N) (t : N) (items items'
   Permutation items items' -> qualifies F t items T = qualifies F t items' T.
 Proof. exact qualifies_perm. Qed.
 
+(* ... as ONE statement: for honest reports (premises of C18_aggregate), any permutation of the input gives an
+   output whose entries are a permutation of the original entries, each with the same measurement and a
+   permutation of its associated data *)
+From StarV Require Import AggPerm.
+Theorem C18_order_independent : forall (F : list N -> list N), (forall l, wf (F l)) ->
+  forall (e : bytes) (t : N) (items items' : list item),
+  (1 <= t < two32)%N -> honest_items F t items -> Permutation items items' ->
+  aggregate F t e (map (imsg F e t) items) = Ok (out_of F e t items) /\
+  aggregate F t e (map (imsg F e t) items') = Ok (out_of F e t items') /\
+  out_equiv (out_of F e t items) (out_of F e t items').
+Proof. exact aggregate_perm. Qed.
+
 Theorem C18_exact_aux_refuted : exists (m : bytes) (aux : option bytes),
   parse_payload (payload m aux) = Ok (m, None) /\ aux <> None.
 Proof. exact exact_aux_refuted. Qed.
